@@ -219,11 +219,14 @@ func c17Run(t *testing.T, run *Run, sc c17Scenario) {
 		if st != nil && st.state == "running" {
 			w.SleepUntil(issue - 20*time.Millisecond + OffArrival)
 			for _, f := range c.Inflight {
+				mmu.Lock()
 				reqN++
-				id := fmt.Sprintf("f%d", reqN)
+				myN := reqN
+				mmu.Unlock()
+				id := fmt.Sprintf("f%d", myN)
 				ex.inflight = append(ex.inflight, id)
 				r := Req{ID: id, Host: st.hosts[0], Path: "/w"}
-				if c.Kind == "rollout-deploy" || (len(st.rollout) > 0 && reqN%2 == 0 && c.Kind != "deploy") {
+				if c.Kind == "rollout-deploy" || (len(st.rollout) > 0 && myN%2 == 0 && c.Kind != "deploy") {
 					r.Hdr = [][2]string{{"Cookie", "kamal-rollout=u1"}}
 				}
 				sentAt := issue - 20*time.Millisecond + OffArrival
